@@ -60,6 +60,20 @@ def reader_ops(rng, sigs, tier, nwin=4):
     return d
 
 
+def clip_reads(reads, sigs):
+    """the extracted jls_bit_copy model is quadratic on its bit-by-bit path (sub-byte types, window not starting on a byte): such windows are
+    shortened to 3000 bytes (the op stays, the C and the model get the same shortened request)"""
+    out = []
+    for o in reads:
+        t = o.split()
+        if t[0] == "rd" and int(t[1]) in sigs:
+            w = proglib.DT_BITS[sigs[int(t[1])]["dt"]]
+            if w < 8 and (int(t[2]) * w) % 8 != 0 and int(t[3]) * w > 24000:
+                o = "rd %s %s %d" % (t[1], t[2], 24000 // w)
+        out.append(o)
+    return out
+
+
 def parse_regions(b):
     regs = [(0, 32)]
     off = 32
@@ -291,7 +305,7 @@ def _impl(scripts, scratch, variant, timeout_s=6):
     return vlib._run_sharded([os.path.join(vlib.BUILD, variant, "jlsrun"), "prog", scratch, "timeout=%d" % timeout_s], scripts, SHARDS, 3000, env)
 
 
-def compare_ops(rops, impl_toks, fault, mline):
+def compare_ops(rops, impl_toks, fault, mline, variant="plain"):
     """rops: the reader ops; impl_toks: the C's result per op (may be shorter after a fault); mline: the model's line.
     -> (difference text or None, classes set)"""
     cls = set()
@@ -318,6 +332,8 @@ def compare_ops(rops, impl_toks, fault, mline):
         if mf is not None:
             cls.add("model_fault_%d" % mf)
             exp = FAULT_EXPECT.get(mf)
+            if mf == 2 and variant != "asan":
+                exp = None                        # out-of-bounds access: only the sanitizer build reports it reliably
             if exp is None:
                 return None, cls                  # undefined behaviour without a crash in this build: nothing to compare after it
             if fault and any(e in fault for e in exp):
@@ -373,7 +389,7 @@ def run_cases(ctx, cases, variant="plain"):
         if "model" not in c:
             c["diff"], c["classes"] = "no file was saved (implementation: %s)" % (fault or a[-120:]), set()
         else:
-            c["diff"], c["classes"] = compare_ops(c["rops"], toks[c["npre"]:], fault, c["model"])
+            c["diff"], c["classes"] = compare_ops(c["rops"], toks[c["npre"]:], fault, c["model"], variant)
         if os.path.exists(c["file"]) and not getattr(ctx, "rdm_keep", False):
             os.remove(c["file"])
     return cases
@@ -408,7 +424,7 @@ def run_rdm(ctx, variant="plain", max_file=400000):
         if p["data"] is None or len(p["data"]) > max_file:
             skipped += 1
             continue
-        rops = ["ropen"] + (p.get("reads") or []) + reader_ops(rng, p["sigs"], ctx.tier, nwin=2 if p.get("reads") else 4) + ["rclose"]
+        rops = ["ropen"] + clip_reads(p.get("reads") or [], p["sigs"]) + reader_ops(rng, p["sigs"], ctx.tier, nwin=2 if p.get("reads") else 4) + ["rclose"]
         cases.append(dict(ops=p["ops"], cor=[], rops=rops, label="intact", gen=p["gen"], size=len(p["data"])))
         for lab, cor in corruptions(rng, p["data"], p["ncor"], ctx.tier):
             # a corrupted copy gets a shorter op list (every call once) unless it is a small file
